@@ -3,6 +3,7 @@ from .common import *
 from . import procs
 
 ID = "C18"
+FALLBACK_N = (24, 60)        # native fallback corpus sizes (quick, thorough): these native cases are expensive
 NATIVE_BOUNDED = (20, 60)        # (quick, thorough) native corpus sizes - bounded stand-in for overflow / non-finite values, which the real-number model cannot see
 MIN_OBLIGATIONS = 150
 
